@@ -21,6 +21,8 @@ CLAIMED = {
              note="Trusted: TLC, zoneinfo's tz database as the source of real transitions, the label decoding in drivers/clock.py. Half-hour clock changes (Australia/Lord_Howe) are outside the three day kinds: recorded as an open known finding, judged only by row count and outcome."),
  "C07": dict(engine="RowFrame", design="6 C07", text="RowFrameDefs.tla states per-row presence (predicted exactly on usable rows, observed masked together, observed column iff supplied), the documented formula on integer parameters and the column-sum identities; TLC enumerates every pattern of <= 5 rows over temperature {finite, NaN, +-inf} x usage {value, missing} for daily and billing; each is embedded in real reporting frames (4 zones, 30-366 days / calendar months) and predicted with constructed integer documents; recorded frames are re-measured on the data object and judged row by row by TLC (RowFrameTrace).",
              note="Trusted: TLC, integer exactness of the realisation (all values exact in binary64), drivers/rowframe.py projection. Single-sub-model documents (routing is C13)."),
+ "C10": dict(engine="Suff", design="6 C10", text="SuffDefs.tla states every published criterion on integers (span, countable days = span-1, 10*valid < 9*span, per-month rules with the civil calendar of Cal.tla under both readings of 'calendar month', negative non-electric usage) as Must/May verdict sets and the list of warning-only names; Suff.tla enumerates class x role x fuel x start x span x gap counts at every threshold -1/0/+1 x placements and checks the oracle's threshold theorems; a seeded sample (thorough: 12k x 4 variants) is realised as real daily / billing / hourly data objects through both entry points and the reported disqualification names are judged by TLC (SuffTrace).",
+             note="Trusted: TLC, Cal.tla, drivers/suff.py. First/last day always valid; exact-threshold cases in DST-free zones; billing usage gaps left to C08. Open finding: off-cycle reads filed as disqualification by the billing classes."),
  "C14": dict(engine="Settings", design="6 C14", text="SettingsTable.tla pins, as literal TLA+, the approved constant, developer flag, a valid alternative and an invalid value of all 174 fields of the current / legacy / billing / hourly settings trees; SettingsDefs.tla states the lock (developer field + alternative without developer mode => rejected), rejection of invalid values, acceptance of permitted ones with only the requested field changed, 14 cross-field cases and stored-settings equality; Settings.tla enumerates the whole space (5.6k constructions) which is replayed exhaustively on real DailyModel / BillingModel / HourlyModel constructors, every outcome judged by TLC (SettingsTrace).",
              note="Trusted: TLC, the pinned table (generated once from the code by tools/gen_settings_table.py, then frozen), drivers/settings.py (canonical JSON of dumped values, numbers compared as numbers)."),
  "C18": dict(engine="Seg", design="6 C18", text="SegDefs.tla states the four month-weight tables (doubled integers), prediction routing, the temperature-bin function, the occupied/unoccupied split and hour-of-week; Seg.tla checks partition of unity, routing = inverse of full weight, the bin theorems and 24*dow+hour onto 0..167 with TLC and enumerates cases; every weight / routing case is decided on all hours of its month in a leap and a non-leap year and 2-4 zones against the real segment_time_series and a CalTRACKHourlyModel wired with provenance-tagged month models; bin, occupancy and time features are replayed on the real functions; all judged by TLC (SegTrace).",
